@@ -392,3 +392,327 @@ Proof.
   split; [exact H2|].
   apply perm_env_equiv; auto. rewrite names_with_body, names_with_mode. exact Hnd.
 Qed.
+
+(* ------------------------------------------------------------------ annotation stability *)
+(* induction on initial types (branch lists are nested) *)
+Section ity_induction.
+  Variable P : ity -> Prop.
+  Hypothesis HName : forall x, P (IName x).
+  Hypothesis HUnit : P IUnit.
+  Hypothesis HTensor : forall a b, P a -> P b -> P (ITensor a b).
+  Hypothesis HLolli : forall a b, P a -> P b -> P (ILolli a b).
+  Hypothesis HPlus : forall bs, Forall (fun lb => P (snd lb)) bs -> P (IPlus bs).
+  Hypothesis HWith : forall bs, Forall (fun lb => P (snd lb)) bs -> P (IWith bs).
+  Hypothesis HUp : forall f t a, P a -> P (IUp f t a).
+  Hypothesis HDown : forall f t a, P a -> P (IDown f t a).
+  Fixpoint ity_ind' (t : ity) : P t :=
+    match t with
+    | IName x => HName x
+    | IUnit => HUnit
+    | ITensor a b => HTensor a b (ity_ind' a) (ity_ind' b)
+    | ILolli a b => HLolli a b (ity_ind' a) (ity_ind' b)
+    | IPlus bs => HPlus bs ((fix go (l : list (string * ity)) : Forall (fun lb => P (snd lb)) l :=
+                               match l with
+                               | [] => Forall_nil _
+                               | lb :: r => Forall_cons lb (ity_ind' (snd lb)) (go r)
+                               end) bs)
+    | IWith bs => HWith bs ((fix go (l : list (string * ity)) : Forall (fun lb => P (snd lb)) l :=
+                               match l with
+                               | [] => Forall_nil _
+                               | lb :: r => Forall_cons lb (ity_ind' (snd lb)) (go r)
+                               end) bs)
+    | IUp f t a => HUp f t a (ity_ind' a)
+    | IDown f t a => HDown f t a (ity_ind' a)
+    end.
+End ity_induction.
+
+Fixpoint to_brs (m : mode) (l : list (string * ity)) : brs :=
+  match l with [] => BNil | (lb, a) :: r => BCons lb (to_sty m a) (to_brs m r) end.
+
+Lemma to_sty_plus m bs : to_sty m (IPlus bs) = TPlus (to_brs m bs) m.
+Proof. cbn. f_equal. induction bs as [|[lb a] r IH]; cbn; [reflexivity|]. rewrite IH. reflexivity. Qed.
+Lemma to_sty_with m bs : to_sty m (IWith bs) = TWith (to_brs m bs) m.
+Proof. cbn. f_equal. induction bs as [|[lb a] r IH]; cbn; [reflexivity|]. rewrite IH. reflexivity. Qed.
+
+Definition shift_headed (t : ity) : bool :=
+  match t with IUp _ _ _ | IDown _ _ _ => true | _ => false end.
+
+(* a type whose first node carries a mode answers inferModality at once, whatever the environment *)
+Lemma infer_headed D f u m it : m <> Unset -> shift_headed it = false ->
+  infer (S f) D (to_sty m it) u = Ok (m, u).
+Proof.
+  intros Hm Hs. apply is_unset_false in Hm.
+  destruct it; try discriminate; try rewrite to_sty_plus; try rewrite to_sty_with; cbn [to_sty infer]; rewrite ?Hm; reflexivity.
+Qed.
+
+Lemma to_sty_shift_headed m it : shift_headed it = true ->
+  to_sty m it = to_sty Unset it.
+Proof. destruct it; try discriminate; reflexivity. Qed.
+
+Lemma modes_ok_inv D m t : ModesOK D m t ->
+  match t with
+  | TName _ k | TUnit k => k = m
+  | TTensor a b k | TLolli a b k => k = m /\ ModesOK D m a /\ ModesOK D m b
+  | TPlus bs k | TWith bs k => k = m /\ BrsModesOK D m bs
+  | TUp _ k _ | TDown _ k _ => k = m
+  end.
+Proof. intros H. inversion H; subst; auto. Qed.
+
+Lemma brs_modes_ok_inv D m l a r : BrsModesOK D m (BCons l a r) -> ModesOK D m a /\ BrsModesOK D m r.
+Proof. intros H. inversion H; subst; auto. Qed.
+
+(* the heart: if the type the checks accept has region mode m, then writing m at its head yields
+   the very same type *)
+Lemma annot_stable_local D D' m : proper m = true ->
+  forall it cur, ModesOK D' m (assign D cur (to_sty Unset it)) ->
+                 assign D m (to_sty m it) = assign D cur (to_sty Unset it).
+Proof.
+  intros Hp. pose proof (proj2 (is_unset_false m) (proper_not_unset _ Hp)) as Hu.
+  assert (Hbr : forall bs,
+    Forall (fun lb => forall cur, ModesOK D' m (assign D cur (to_sty Unset (snd lb))) ->
+                       assign D m (to_sty m (snd lb)) = assign D cur (to_sty Unset (snd lb))) bs ->
+    forall cur, BrsModesOK D' m (assign_brs D cur (to_brs Unset bs)) ->
+                assign_brs D m (to_brs m bs) = assign_brs D cur (to_brs Unset bs)).
+  { induction 1 as [|[lb a] r Ha Hr IH]; intros cur Hm; cbn [to_brs assign_brs] in *; [reflexivity|].
+    cbn [snd] in Ha. apply brs_modes_ok_inv in Hm as [H1 H2]. rewrite (Ha cur), (IH cur); auto. }
+  induction it using ity_ind'; intros cur Hm.
+  - cbn [to_sty assign is_unset negb] in *. rewrite Hu. cbn [negb].
+    destruct (tlookup D x) as [d|]; apply modes_ok_inv in Hm; rewrite Hm; reflexivity.
+  - cbn [to_sty assign is_unset] in *. rewrite Hu. apply modes_ok_inv in Hm. rewrite Hm. reflexivity.
+  - cbn [to_sty assign is_unset] in *. rewrite Hu. apply modes_ok_inv in Hm as (E & Ha & Hb). subst cur.
+    rewrite (IHit1 m), (IHit2 m); auto.
+  - cbn [to_sty assign is_unset] in *. rewrite Hu. apply modes_ok_inv in Hm as (E & Ha & Hb). subst cur.
+    rewrite (IHit1 m), (IHit2 m); auto.
+  - rewrite (to_sty_plus Unset) in Hm. rewrite (to_sty_plus Unset), (to_sty_plus m). cbn [assign is_unset] in *. rewrite Hu. apply modes_ok_inv in Hm as (E & Hb). subst cur.
+    rewrite (Hbr bs H m); auto.
+  - rewrite (to_sty_with Unset) in Hm. rewrite (to_sty_with Unset), (to_sty_with m). cbn [assign is_unset] in *. rewrite Hu. apply modes_ok_inv in Hm as (E & Hb). subst cur.
+    rewrite (Hbr bs H m); auto.
+  - reflexivity.
+  - reflexivity.
+Qed.
+
+(* annotation types (let / prc / assuming / typed cut): AddMissingModalities is stable *)
+Theorem ann_annotation_stable_proof D it t' :
+  add_missing D (to_sty Unset it) = Ok t' -> check_wf D t' = None ->
+  add_missing D (to_sty (mode_of t') it) = Ok t'.
+Proof.
+  rewrite !add_missing_eq. intros H Hw.
+  assert (Ht : assign D (or_default (infer_mode D (to_sty Unset it))) (to_sty Unset it) = t') by congruence. clear H.
+  destruct (check_wf_sound _ _ Hw) as [_ Hm].
+  destruct (proj1 (modes_ok_proper D) _ _ Hm) as [Hp _].
+  set (m := mode_of t') in *.
+  destruct (shift_headed it) eqn:Hs.
+  - rewrite (to_sty_shift_headed m it Hs). rewrite Ht. reflexivity.
+  - f_equal. unfold infer_mode, infer_fuel.
+    rewrite (infer_headed D _ [] m it (proper_not_unset _ Hp) Hs).
+    unfold or_default. rewrite (proj2 (is_unset_false m) (proper_not_unset _ Hp)).
+    rewrite <- Ht in Hm |- *. apply (annot_stable_local D D); auto.
+Qed.
+
+(* definitions: SetModalityTypeDef is stable under writing the recorded modes explicitly *)
+Lemma infer_mode_headed D m it : m <> Unset -> shift_headed it = false -> infer_mode D (to_sty m it) = m.
+Proof. intros Hm Hs. unfold infer_mode, infer_fuel. rewrite (infer_headed D _ [] m it Hm Hs). reflexivity. Qed.
+
+Lemma infer_mode_shift D D' h h' it : shift_headed it = true ->
+  infer_mode D (to_sty h it) = infer_mode D' (to_sty h' it).
+Proof. destruct it; try discriminate; intros _; reflexivity. Qed.
+
+Lemma or_default_id m : m <> Unset -> or_default m = m.
+Proof. intros H. unfold or_default. rewrite (proj2 (is_unset_false m) H). reflexivity. Qed.
+
+Lemma assign_ext_modes D D' :
+  (forall y, option_map td_mode (tlookup D y) = option_map td_mode (tlookup D' y)) ->
+  (forall t cur, assign D cur t = assign D' cur t) /\ (forall b cur, assign_brs D cur b = assign_brs D' cur b).
+Proof.
+  intros He. apply sty_brs_ind; intros; cbn [assign assign_brs];
+    try rewrite H; try rewrite H0; try reflexivity.
+  specialize (He x). destruct (tlookup D x), (tlookup D' x); cbn in He; try discriminate; try reflexivity.
+  inversion He. reflexivity.
+Qed.
+
+Lemma tlookup_map_modes {A} (g g' : A -> tdef) l :
+  (forall s, In s l -> td_name (g s) = td_name (g' s) /\ td_mode (g s) = td_mode (g' s)) ->
+  forall y, option_map td_mode (tlookup (map g l) y) = option_map td_mode (tlookup (map g' l) y).
+Proof.
+  induction l as [|s r IH]; intros H y; cbn [map tlookup]; [reflexivity|].
+  assert (IH' := IH (fun s0 Hs => H s0 (or_intror Hs)) y).
+  destruct (H s (or_introl eq_refl)) as [Hn Hm].
+  destruct (tlookup (map g r) y), (tlookup (map g' r) y); cbn in IH'; try discriminate; try exact IH'.
+  rewrite Hn. destruct (String.eqb y (td_name (g' s))); cbn; [rewrite Hm|]; reflexivity.
+Qed.
+
+Lemma map_conv E (S : list src_def) :
+  map (with_mode E) (conv S) = map (fun s => with_mode E (conv1 s)) S.
+Proof. unfold conv. rewrite map_map. reflexivity. Qed.
+
+Lemma map_conv_annot E R (S : list src_def) :
+  map (with_mode E) (conv (annotate R S)) = map (fun s => with_mode E (conv1 (annotate1 R s))) S.
+Proof. unfold conv, annotate. rewrite !map_map. reflexivity. Qed.
+
+Lemma map_body_conv E1 E0 (S : list src_def) :
+  map (with_body E1) (map (with_mode E0) (conv S)) = map (fun s => with_body E1 (with_mode E0 (conv1 s))) S.
+Proof. unfold conv. rewrite !map_map. reflexivity. Qed.
+
+Lemma map_body_conv_annot E1 E0 R (S : list src_def) :
+  map (with_body E1) (map (with_mode E0) (conv (annotate R S))) =
+  map (fun s => with_body E1 (with_mode E0 (conv1 (annotate1 R s)))) S.
+Proof. unfold conv, annotate. rewrite !map_map. reflexivity. Qed.
+
+Theorem infer_annotation_stable_proof (S : list src_def) R :
+  set_modality_typedefs (conv S) = Ok R -> sanity_typedefs R = Ok None ->
+  set_modality_typedefs (conv (annotate R S)) = Ok R.
+Proof.
+  intros HR Hs. apply wf_sound_proof in Hs. destruct Hs as [Hnd _ _ Hmo Hdm].
+  rewrite set_modality_map in HR. rewrite set_modality_map. f_equal.
+  set (D0 := conv S) in *. set (D0' := conv (annotate R S)).
+  set (D1 := map (with_mode D0) D0) in *. set (D1' := map (with_mode D0') D0').
+  assert (ER : R = map (fun s => with_body D1 (with_mode D0 (conv1 s))) S).
+  { transitivity (map (with_body D1) D1); [congruence | exact (map_body_conv D1 D0 S)]. }
+  clear HR.
+  (* what the recorded environment says about one source definition *)
+  assert (Hdef : forall x h t, In (x, h, t) S ->
+            let mx := or_default (infer_mode D0 (to_sty h t)) in
+            tlookup R x = Some {| td_name := x; td_body := assign D1 mx (to_sty h t); td_mode := mx |} /\
+            ModesOK R mx (assign D1 mx (to_sty h t)) /\ proper mx = true).
+  { intros x h t Hin mx.
+    assert (HinR : In {| td_name := x; td_body := assign D1 mx (to_sty h t); td_mode := mx |} R).
+    { rewrite ER at 1. apply in_map_iff. exists (x, h, t). split; [reflexivity | exact Hin]. }
+    split; [apply (tlookup_nodup R _ Hnd HinR)|].
+    pose proof (Hmo _ HinR) as Hm. pose proof (Hdm _ HinR) as Hd. cbn [td_body td_mode] in Hm, Hd.
+    rewrite <- Hd in Hm. split; [exact Hm|]. apply (proj1 (modes_ok_proper R) _ _ Hm). }
+  (* the annotated source gets the same recorded modes ... *)
+  assert (Hmode : forall s, In s S ->
+            td_name (with_mode D0' (conv1 (annotate1 R s))) = td_name (with_mode D0 (conv1 s)) /\
+            td_mode (with_mode D0' (conv1 (annotate1 R s))) = td_mode (with_mode D0 (conv1 s))).
+  { intros [[x h] t] Hin. destruct (Hdef x h t Hin) as (El & _ & Hp).
+    cbn [annotate1 conv1 with_mode td_mode td_body td_name]. split; [reflexivity|].
+    rewrite El. cbn [td_mode].
+    set (mx := or_default (infer_mode D0 (to_sty h t))) in *.
+    destruct (shift_headed t) eqn:Hsh.
+    - unfold mx. f_equal. apply infer_mode_shift; auto.
+    - destruct (is_unset h) eqn:Eh.
+      + rewrite (infer_mode_headed D0' mx t (proper_not_unset _ Hp) Hsh).
+        apply or_default_id. apply proper_not_unset; auto.
+      + apply is_unset_false in Eh. unfold mx.
+        rewrite (infer_mode_headed D0' h t Eh Hsh), (infer_mode_headed D0 h t Eh Hsh). reflexivity. }
+  assert (Hlk : forall y, option_map td_mode (tlookup D1' y) = option_map td_mode (tlookup D1 y)).
+  { change D1' with (map (with_mode D0') (conv (annotate R S))).
+    change D1 with (map (with_mode D0) (conv S)).
+    rewrite (map_conv_annot D0' R S), (map_conv D0 S). apply tlookup_map_modes. exact Hmode. }
+  (* ... and the same bodies *)
+  transitivity (map (fun s => with_body D1' (with_mode D0' (conv1 (annotate1 R s)))) S);
+    [exact (map_body_conv_annot D1' D0' R S)|].
+  etransitivity; [|symmetry; exact ER].
+  apply map_ext_in. intros [[x h] t] Hin.
+  destruct (Hmode _ Hin) as [_ Hm]. destruct (Hdef x h t Hin) as (El & Hmok & Hp).
+  unfold with_body. rewrite Hm. cbn [annotate1 conv1 with_mode td_mode td_body td_name] in *.
+  f_equal.
+  rewrite (proj1 (assign_ext_modes D1' D1 Hlk)).
+  rewrite El. cbn [td_mode].
+  set (mx := or_default (infer_mode D0 (to_sty h t))) in *.
+  destruct (is_unset h) eqn:Eh; [|reflexivity].
+  apply is_unset_true in Eh. subst h.
+  destruct (shift_headed t) eqn:Hsh.
+  - rewrite (to_sty_shift_headed mx t Hsh). reflexivity.
+  - apply (annot_stable_local D1 R); auto.
+Qed.
+
+(* ------------------------------------------------------------------ the declarative assignment *)
+(* soundness half of infer_correct: a mode returned by inferModality is one that a component fixes *)
+Lemma infer_sound_fix D : forall f,
+  (forall t u m u', infer f D t u = Ok (m, u') -> m <> Unset -> Fixes D t m) /\
+  (forall b u m, infer_brs f D b u = Ok m -> m <> Unset -> FixesBrs D b m).
+Proof.
+  induction f as [|f [IHt IHb]]; [split; cbn; discriminate|].
+  split.
+  - intros t u m u' H Hm. destruct t; cbn [infer] in H.
+    + destruct (is_unset m0) eqn:E0; cbn [negb] in H.
+      * apply is_unset_true in E0. subst m0.
+        destruct (tlookup D x) as [d|] eqn:El; [|inversion H; congruence].
+        destruct (str_mem x u); cbn [negb] in H; [inversion H; congruence|].
+        eapply Fx_NameRef; eauto.
+      * inversion H; subst. apply Fx_NameAnn; auto.
+    + inversion H; subst. apply Fx_Unit; auto.
+    + destruct (is_unset m0) eqn:E0; cbn [negb] in H.
+      * apply is_unset_true in E0. subst m0.
+        destruct (infer f D t1 u) as [[lm u1]| |] eqn:E1; cbn [obind] in H; try discriminate.
+        destruct (infer f D t2 u) as [[rm u2]| |] eqn:E2; cbn [obind] in H; try discriminate.
+        inversion H; subst. unfold common2 in *. destruct (is_unset lm) eqn:El.
+        -- apply Fx_TensorR. eauto.
+        -- apply Fx_TensorL. eauto.
+      * inversion H; subst. apply Fx_TensorAnn; auto.
+    + destruct (is_unset m0) eqn:E0; cbn [negb] in H.
+      * apply is_unset_true in E0. subst m0.
+        destruct (infer f D t1 u) as [[lm u1]| |] eqn:E1; cbn [obind] in H; try discriminate.
+        destruct (infer f D t2 u) as [[rm u2]| |] eqn:E2; cbn [obind] in H; try discriminate.
+        inversion H; subst. unfold common2 in *. destruct (is_unset lm) eqn:El.
+        -- apply Fx_LolliR. eauto.
+        -- apply Fx_LolliL. eauto.
+      * inversion H; subst. apply Fx_LolliAnn; auto.
+    + destruct (is_unset m0) eqn:E0; cbn [negb] in H.
+      * apply is_unset_true in E0. subst m0.
+        destruct (infer_brs f D bs u) as [rm| |] eqn:E1; cbn [obind] in H; try discriminate.
+        inversion H; subst. apply Fx_PlusBr. eauto.
+      * inversion H; subst. apply Fx_PlusAnn; auto.
+    + destruct (is_unset m0) eqn:E0; cbn [negb] in H.
+      * apply is_unset_true in E0. subst m0.
+        destruct (infer_brs f D bs u) as [rm| |] eqn:E1; cbn [obind] in H; try discriminate.
+        inversion H; subst. apply Fx_WithBr. eauto.
+      * inversion H; subst. apply Fx_WithAnn; auto.
+    + inversion H; subst. apply Fx_Up; auto.
+    + inversion H; subst. apply Fx_Down; auto.
+  - intros b u m H Hm. destruct b; cbn [infer_brs] in H; [inversion H; congruence|].
+    destruct (infer f D a u) as [[lm u1]| |] eqn:E1; cbn [obind] in H; try discriminate.
+    destruct (infer_brs f D b u) as [rm| |] eqn:E2; cbn [obind] in H; try discriminate.
+    inversion H; subst. unfold common2 in *. destruct (is_unset lm) eqn:El.
+    + apply FxB_There. eauto.
+    + apply FxB_Here. apply is_unset_false in El. eauto.
+Qed.
+
+(* full statement of infer_correct (kept as a Prop; the completeness half is not proved):
+   the mode recorded for every definition is its declarative mode *)
+Definition infer_correct_stmt : Prop :=
+  forall D0 d, In d D0 -> HasMode D0 (td_body d) (td_mode (with_mode D0 d)).
+
+(* proved: whenever inferModality answers with a mode, a component fixes it; when it answers
+   Unset the recorded mode is the default.  Missing for the full statement: when the search
+   answers Unset no component fixes any mode (completeness of the depth-first search with its
+   used-labels cut-off: every reachable fixing component is reachable along a path that repeats
+   no name). *)
+Theorem infer_correct_partial_proof D0 d :
+  (infer_mode D0 (td_body d) <> Unset -> Fixes D0 (td_body d) (td_mode (with_mode D0 d))) /\
+  (infer_mode D0 (td_body d) = Unset -> td_mode (with_mode D0 d) = Rep).
+Proof.
+  unfold with_mode. cbn [td_mode]. split.
+  - intros H. rewrite (or_default_id _ H). unfold infer_mode in *.
+    destruct (infer_top_ok D0 (td_body d)) as (m & u & E). rewrite E in *.
+    eapply (proj1 (infer_sound_fix D0 _)); eauto.
+  - intros H. rewrite H. reflexivity.
+Qed.
+
+(* ------------------------------------------------------------------ examples *)
+(* the hypotheses of the theorems are satisfiable: a source environment with recursion, an alias
+   chain, shifts, annotations present and omitted *)
+Definition ex_src : list src_def :=
+  [ ("a2", Unset, IName "alias");
+    ("alias", Unset, IName "listNat");
+    ("nat", Lin, IPlus [("zero", IUnit); ("succ", IName "nat")]);
+    ("listNat", Unset, IPlus [("cons", ITensor (IName "nat") (IName "listNat")); ("nil", IUnit)]);
+    ("mapType", Unset, IUp Lin Rep (ILolli (IName "nat") (IName "nat")));
+    ("unitT", Unset, ITensor IUnit IUnit) ].
+
+Definition ex_res : tenv :=
+  match set_modality_typedefs (conv ex_src) with Ok R => R | _ => [] end.
+
+Example ex_src_modes : map td_mode ex_res = [Lin; Lin; Lin; Lin; Rep; Rep].
+Proof. vm_compute. reflexivity. Qed.
+
+Example ex_src_hyps : set_modality_typedefs (conv ex_src) = Ok ex_res /\ sanity_typedefs ex_res = Ok None.
+Proof. split; vm_compute; reflexivity. Qed.
+
+Example ex_src_annotated :
+  map (fun s => snd (fst s)) (annotate ex_res ex_src) = [Lin; Lin; Lin; Lin; Rep; Rep].
+Proof. vm_compute. reflexivity. Qed.
+
+Example ex_src_stable : set_modality_typedefs (conv (annotate ex_res ex_src)) = Ok ex_res.
+Proof. apply infer_annotation_stable_proof; apply ex_src_hyps. Qed.
